@@ -343,6 +343,18 @@ End FormatTokens.
 
 (* ---------------------------------------------------------------- format_token / format_block *)
 
+(* pieces of format_block *)
+Definition open_block (o : options) (lparen : ltext) (st : fstate) : fstate :=
+  match o_braces o with
+  | SameLine => push [NL] (push (l_data lparen) st)
+  | NewLine => push [NL] (push (l_data lparen) (push [NL] st))
+  end.
+Definition indent_by (k : nat) (st : fstate) : fstate := mkF (f_chunks st) (f_spc st) (f_indent st + k).     (* self.indent += k *)
+Definition dedent_by (k : nat) (st : fstate) : fstate := mkF (f_chunks st) (f_spc st) (f_indent st - k).     (* self.indent -= k *)
+(* `while let Some(last) = self.chunks.last() { if last.str == "\n" { pop } else { break } }` *)
+Definition pop_newlines (st : fstate) : fstate := mkF (drop_nl_chunks (f_chunks st)) (f_spc st) (f_indent st).
+
+
 Fixpoint format_token (o : options) (t : token) (st : fstate) {struct t} : fstate :=
   match t with
   | Align tag value => fmt_lexpr value (push [SP] (push (l_data tag) st))
@@ -412,16 +424,11 @@ Fixpoint format_token (o : options) (t : token) (st : fstate) {struct t} : fstat
 with format_block (o : options) (b : block) (st : fstate) {struct b} : fstate :=
   match b with
   | mkBlock lparen inner rparen =>
-      (* the trivia of `{` is not emitted *)
-      let st := match o_braces o with
-                | SameLine => push [NL] (push (l_data lparen) st)
-                | NewLine => push [NL] (push (l_data lparen) (push [NL] st))
-                end in
-      let st := mkF (f_chunks st) (f_spc st) (f_indent st + o_indent o) in
+      let st := open_block o lparen st in                       (* the trivia of `{` is not emitted *)
+      let st := indent_by (o_indent o) st in
       let st := format_tokens_with (format_token o) (Some (l_trivia rparen)) inner true st in
-      let st := mkF (f_chunks st) (f_spc st) (f_indent st - o_indent o) in
-      (* make sure the inner chunks end with exactly one new-line *)
-      let st := mkF (drop_nl_chunks (f_chunks st)) (f_spc st) (f_indent st) in
+      let st := dedent_by (o_indent o) st in
+      let st := pop_newlines st in                              (* the inner chunks end with exactly one new-line *)
       let st := push [NL] st in
       push (l_data rparen) st
   end.
